@@ -25,3 +25,9 @@ def run(ctx):
     # completeness rests on the polynomial routines the prover and verifier evaluate with (shared with C10)
     c10.run_shape(ctx)
     c10.run_exhaustive_loops(ctx)
+    # "every validity circuit shipped": a cloned circuit must be the same circuit (hand-written Clone impls, shared with C01) and
+    # the multithreaded gadget must compute what the serial one does (shared with C14)
+    from rules.common import clone_faithful
+    clone_faithful(ctx, "R-C05.CL")
+    from rules import c14
+    c14.run(ctx)
